@@ -160,7 +160,7 @@ def rule_free_live(prog, res, file_suffix, rule="O-FREE-LIVE"):
         seen = set()
         for b, i, s, a, why in released(prog, g, summ, by):
             root, rest = _root_and_rest(a)
-            if not rest.startswith("->") and not rest.startswith("."):
+            if not rest.startswith(("->", ".", "[")) or "->" not in a and "." not in a:
                 continue
             if (b, i, a) in seen:
                 continue
